@@ -21,8 +21,18 @@ extern "C" void __asan_unpoison_memory_region(void const volatile*, size_t);
 #  define UNPOISON(p, n) ((void)0)
 #endif
 
+extern "C" char __executable_start;
+extern "C" char _end;
+
 namespace sim {
-int g_sut_depth = 0;
+thread_local int g_sut_depth = 0;
+namespace heap {
+   bool is_static(const void* p)
+   {
+      auto a = reinterpret_cast<uintptr_t>(p);
+      return a >= reinterpret_cast<uintptr_t>(&__executable_start) and a < reinterpret_cast<uintptr_t>(&_end);
+   }
+}
 }
 
 #if defined(SIM_NO_ARENA)
@@ -51,6 +61,7 @@ namespace sim::heap {
    uint64_t live_bytes(int) { return 0; }
    size_t live_blocks(LiveInfo*, size_t, int) { return 0; }
    const Stats& stats() { return g_stats; }
+   uint64_t serial() { return 0; }
    void* noise_alloc(size_t n) { return ::operator new(n); }
    void noise_free(void* p) { ::operator delete(p); }
 }
@@ -386,6 +397,7 @@ namespace {
    }
 
    const Stats& stats() { return g_stats; }
+   uint64_t serial() { return g_serial; }
 
    void* noise_alloc(size_t n)
    {
